@@ -556,3 +556,10 @@ Section PkgRefs.
     rewrite app_nil_r. apply kvsort_unique; [exact Hs|apply Permutation_sym, Permutation_rev].
   Qed.
 End PkgRefs.
+
+(* ---- identity attributes of every node survive writing and reading (C03) --------------------------- *)
+Theorem spdx_identity parse_time fmt_time n :
+  let p := pkg_to_node parse_time (node_to_pkg fmt_time n) in
+  let f := file_to_node (node_to_file n) in
+  (n_id p = n_id n /\ n_name p = n_name n /\ n_version p = n_version n) /\ (n_id f = n_id n /\ n_name f = n_name n).
+Proof. cbn. repeat split; reflexivity. Qed.
